@@ -454,6 +454,117 @@ class Body:
         return "\n".join(out)
 
 
+_KNOWN_PARAMS = None
+
+
+def known_params():
+    global _KNOWN_PARAMS
+    if _KNOWN_PARAMS is None:
+        p = os.path.join(os.path.dirname(os.path.abspath(__file__)), "known_params.json")
+        _KNOWN_PARAMS = json.load(open(p)) if os.path.exists(p) else {}
+    return _KNOWN_PARAMS
+
+
+def _each_place(bj):
+    """every place (a [local, proj] list) of a body's JSON, for in-place edits"""
+    def operand(o):
+        if o and o[0] in ("c", "m"):
+            yield o[1]
+    for blk in bj["blocks"]:
+        for st in blk["st"]:
+            if st["k"] == "a":
+                yield st["l"]
+                r = st["r"]
+                if "pl" in r:
+                    yield r["pl"]
+                for key in ("op", "a", "b"):
+                    if key in r and isinstance(r[key], list):
+                        yield from operand(r[key])
+                for o in r.get("ops", ()):
+                    yield from operand(o)
+            elif st["k"] == "sd":
+                yield st["l"]
+        t = blk["term"]
+        for a in t.get("args", ()):
+            yield from operand(a)
+        for key in ("dest", "pl", "arg"):
+            if key in t and isinstance(t[key], list):
+                yield t[key]
+        for key in ("d", "cond", "fop", "v"):
+            if t.get(key) and isinstance(t[key], list):
+                yield from operand(t[key])
+
+
+def normalise_names(facts):
+    """Rules print parameters and captured variables by name. So that renaming a parameter or a captured local (a behaviour-preserving edit)
+    cannot change what a rule sees, the names of the pinned tree (known_params.json, by position) are written over the current ones for every
+    function that still has the same number of parameters. Returns {path: {current name: pinned name}} for the evidence."""
+    ref = known_params()
+    out = {}
+    for path, b in facts.bodies.items():
+        r = ref.get(path)
+        if r is None:
+            continue
+        bj = b.j
+        ren = {}
+        if len(r["params"]) == bj["arg_count"]:
+            for i, want in enumerate(r["params"]):
+                loc = bj["locals"][i + 1]
+                if want and loc.get("name") and loc["name"] != want:
+                    ren[loc["name"]] = want
+                    loc["name"] = want
+        # let-bound variables: by position among the named locals, when their number and types are unchanged (a pure renaming keeps both)
+        want_locals = r.get("locals")
+        if want_locals is not None:
+            cur = [(i, loc) for i, loc in enumerate(bj["locals"]) if i > bj["arg_count"] and loc.get("name")]
+            if len(cur) == len(want_locals) and all(bj["tys"][loc["ty"]] == wt for (i, loc), (wn, wt) in zip(cur, want_locals)):
+                for (i, loc), (wn, wt) in zip(cur, want_locals):
+                    if loc["name"] != wn:
+                        ren[loc["name"]] = wn
+                        loc["name"] = wn
+        ups = r.get("upvars")
+        if ups:
+            seen_ix = set()
+            for pl in _each_place(bj):
+                if pl[0] == 1:
+                    for e in pl[1]:
+                        if isinstance(e, list) and e[0] == "f":
+                            seen_ix.add(str(e[1]))
+                            break
+                        if e != "*":
+                            break
+            if not seen_ix <= set(ups):
+                ups = None      # a different closure now lives under this path
+        if ups:
+            for pl in _each_place(bj):
+                if pl[0] != 1:
+                    continue
+                for e in pl[1]:
+                    if isinstance(e, list) and e[0] == "f":
+                        want = ups.get(str(e[1]))
+                        if want and e[2] != want:
+                            ren[e[2]] = want
+                            e[2] = want
+                        break
+                    if e != "*":
+                        break
+        # closure / coroutine constructions inside this body
+        for blk in bj["blocks"]:
+            for st in blk["st"]:
+                if st["k"] == "a" and st["r"].get("k") == "agg" and st["r"].get("ak") in ("closure", "coroutine"):
+                    cu = (ref.get(st["r"].get("def")) or {}).get("upvars")
+                    if cu and st["r"].get("fields"):
+                        for i, nm in enumerate(st["r"]["fields"]):
+                            want = cu.get(str(i))
+                            if want and nm != want:
+                                ren[nm] = want
+                                st["r"]["fields"][i] = want
+        if ren:
+            out[path] = ren
+            b._blocks = None
+    return out
+
+
 TRACKED_ADTS = {"std::result::Result": {0: "Ok", 1: "Err"}, "std::option::Option": {0: "None", 1: "Some"},
                 "std::ops::ControlFlow": {0: "Continue", 1: "Break"}, "core::result::Result": {0: "Ok", 1: "Err"},
                 "core::option::Option": {0: "None", 1: "Some"}, "core::ops::ControlFlow": {0: "Continue", 1: "Break"}}
@@ -636,6 +747,8 @@ class Facts:
                 elif t == "meta":
                     self.meta = d
         self._callers = None
+        self.path = path
+        self.renamed = normalise_names(self) if not os.environ.get("VERIF_NO_RENAME") else {}
 
     def body(self, path):
         return self.bodies.get(path)
